@@ -12,6 +12,7 @@ import (
 	"strings"
 	"sync"
 	"testing"
+	"time"
 
 	"github.com/itchyny/gojq"
 	"pgregory.net/rapid"
@@ -28,6 +29,8 @@ var (
 	rec   *evid.Rec
 	model *refjq.Interp
 )
+
+var watchdog = 120 * time.Second
 
 const (
 	steps   = 20000
@@ -120,11 +123,13 @@ func check(c concCase, repeat int) (msg, discard string) {
 		var wg sync.WaitGroup
 		var mu sync.Mutex
 		var failure string
+		finished := 0
 		start := make(chan struct{})
 		for g := 0; g < c.Goroutines; g++ {
 			wg.Add(1)
 			go func(g int) {
 				defer wg.Done()
+				defer func() { mu.Lock(); finished++; mu.Unlock() }()
 				<-start
 				for r := 0; r < c.Reps; r++ {
 					in := shared
@@ -157,7 +162,19 @@ func check(c concCase, repeat int) (msg, discard string) {
 			}(g)
 		}
 		close(start)
-		wg.Wait()
+		// deadlock watchdog: every run is bounded by the step budget and takes
+		// milliseconds; goroutines still blocked after two minutes are deadlocked
+		// (the only use of the clock in this check, margin about 10^4)
+		done := make(chan struct{})
+		go func() { wg.Wait(); close(done) }()
+		select {
+		case <-done:
+		case <-time.After(watchdog):
+			mu.Lock()
+			n := finished
+			mu.Unlock()
+			return fmt.Sprintf("deadlock: only %d of %d goroutines finished within %v (%s)", n, c.Goroutines, watchdog, c.Mode), ""
+		}
 		if failure != "" {
 			return failure, ""
 		}
@@ -175,6 +192,8 @@ var templates = []string{
 	"{\"a\":[1,2]} as $c | [$c, ($c | .a[0] = 0), $c]", "[[3,1],[2]] | map(sort)", "[1,2,3] | del(.[0])", "{\"a\":{\"b\":{\"c\":[1,{\"d\":2}]}}} | del(.a.b.c[1].d)", "{\"a\":{\"b\":1},\"c\":{\"d\":2}} | delpaths([[\"a\",\"b\"]])",
 	"[{\"a\":1},{\"a\":2}] | map(del(.a))", "{\"a\":[{\"b\":1}]} | .a[0].b |= . + 1", "{\"a\":{\"q\":1}} | to_entries", "[{\"a\":{\"q\":1}}] | .[0] | del(.a.q)", "{} | .a.b.c = 1", "[[],[]] | .[0] += [1]",
 	"test(\"a+\")", "[match(\"(?<x>a)(b)?\"; \"g\")]", "sub(\"a\"; \"b\")", "gsub(\"[a-c]\"; \"x\")", "[splits(\"a\")]", "capture(\"(?<y>.)\")", "[scan(\"\\\\w\")]", "test(\"A\"; \"i\")", "[match(\"\"; \"g\")] | length",
+	"try test(\"(\") catch .", "try test(\"[\") catch \"bad\"", "[.[]? | strings | try test(\"a(\") catch \"bad\"]", "try sub(\"(?<x\"; \"y\") catch .", "(test(\"a\"; \"x\"))?", "try ([match(\"*\"; \"g\")] | length) catch \"bad\"",
+	"[try test(\"(\") catch 1, try test(\"(\") catch 2]", "try capture(\"(?P<n\") catch .", "[test(\"a.b\"), test(\"a.b\"; \"s\")?, test(\"a.b\"; \"x\")?, test(\"A.B\"; \"i\")]", "try splits(\"+\") catch \"bad\"",
 	"ascii_downcase | test(\"b|c\")", "split(\"a\"; null)", "[.[]? | strings | test(\"^a\")]", "tostring | test(\"[0-9]+\")", "tojson | [match(\"[\\\\[\\\\]]\"; \"g\")] | length",
 	"$ENV | length", "env | keys", "$__loc__", "[limit(3; repeat(1))]", "[range(5)] | map(. * 2)", "reduce range(10) as $i (0; . + $i)", "[foreach range(5) as $i (0; . + $i)]", "path(..)", "[.. | numbers]",
 	"def f: if . > 3 then . else . + 1 | f end; 0 | f", "[limit(5; recurse(. + 1))]?", "first(.[]?)", "isempty(.[]?)", "[.[]? | tojson | fromjson]", "@json", "@base64", "ltrimstr(\"a\")?", "\"\\(.)\"",
@@ -222,6 +241,7 @@ func judge(t *rapid.T, sub string, c concCase) {
 func TestC06(t *testing.T) {
 	rec = evid.Open("C06")
 	defer rec.Close()
+	rec.ShrinkTime = "20s"
 	var err error
 	if model, err = refjq.New(); err != nil {
 		t.Fatal(err)
